@@ -101,7 +101,7 @@ fn trace_file() -> &'static Option<std::sync::Mutex<std::fs::File>> {
     TRACE.get_or_init(|| {
         std::env::var("AISMON_TRACE").ok().map(|p| {
             std::sync::Mutex::new(
-                std::fs::OpenOptions::new().create(true).append(true).open(p).expect("trace file"),
+                std::fs::OpenOptions::new().create(true).write(true).truncate(true).open(p).expect("trace file"),
             )
         })
     })
@@ -111,8 +111,17 @@ fn trace_file() -> &'static Option<std::sync::Mutex<std::fs::File>> {
 /// line identifies the input of a death that escapes unwinding
 pub fn trace(kind: &str, data: &[u8], extra: u64) {
     if let Some(f) = trace_file() {
+        // only the last input matters: the file is rewritten, not appended to (a thorough run
+        // makes billions of calls)
+        use std::io::{Seek, SeekFrom};
         let mut f = f.lock().unwrap();
-        let _ = writeln!(f, "{} {} {}", kind, extra, crate::json::hex_str(data));
+        let _ = f.set_len(0);
+        let _ = f.seek(SeekFrom::Start(0));
+        if data.len() > (64 << 20) {
+            let _ = writeln!(f, "{} {} {} (input of {} bytes, first 4096 shown)", kind, extra, crate::json::hex_str(&data[..4096]), data.len());
+        } else {
+            let _ = writeln!(f, "{} {} {}", kind, extra, crate::json::hex_str(data));
+        }
         let _ = f.flush();
     }
 }
